@@ -90,13 +90,21 @@ func randomOps(rng *rand.Rand, sol nextroute.Solution, n int) {
 	for i := 0; i < n; i++ {
 		switch rng.Intn(3) {
 		case 0:
-			unpl := unitsOf(sol, func(u nextroute.SolutionPlanUnit) bool { return !u.IsPlanned() && !u.IsFixed() })
+			// root units made of stops only: the listed findings about units of units (E2, E4, E16) must not
+			// be produced inside these helper histories
+			unpl := unitsOf(sol, func(u nextroute.SolutionPlanUnit) bool {
+				_, isStops := u.(nextroute.SolutionPlanStopsUnit)
+				return isStops && !u.IsPlanned() && !u.IsFixed()
+			})
 			if len(unpl) > 0 {
 				mv := sol.BestMove(ctx, unpl[rng.Intn(len(unpl))])
 				mv.Execute(ctx)
 			}
 		case 1:
-			pl := unitsOf(sol, func(u nextroute.SolutionPlanUnit) bool { return u.IsPlanned() })
+			pl := unitsOf(sol, func(u nextroute.SolutionPlanUnit) bool {
+				_, isStops := u.(nextroute.SolutionPlanStopsUnit)
+				return isStops && u.IsPlanned()
+			})
 			if len(pl) > 0 {
 				pl[rng.Intn(len(pl))].UnPlan()
 			}
